@@ -249,14 +249,14 @@ func one(d *fw.Driver, res *fw.Result, seed int64, round int, thorough bool) err
 	r := fw.Rng(seed, "c14")
 	var wg sync.WaitGroup
 	errs := make(chan string, 64)
-	n := 6
+	n := 8
 	if thorough {
-		n = 10
+		n = 12
 	}
 	sizes := []int{1, 100, 4000, 70000, 300000}
 	for g := 0; g < n; g++ {
 		wg.Add(1)
-		kind := g % 6
+		kind := g % 8
 		sz := sizes[r.Intn(len(sizes))]
 		go func(g, kind, sz int) {
 			defer wg.Done()
@@ -284,6 +284,16 @@ func one(d *fw.Driver, res *fw.Result, seed int64, round int, thorough bool) err
 					bctx, bcancel := context.WithCancel(cctx)
 					go func() { time.Sleep(time.Duration(200+k*50) * time.Microsecond); bcancel() }()
 					cl.Block(bctx, tok)
+				case 6: // elements the forwarder cannot marshal: dropped whole, never a partial frame
+					ch, err := cl.SubOdd(cctx, tok, 9)
+					if err == nil {
+						for range ch {
+						}
+					}
+				case 7: // notifications that fail on the other side, in both directions: no output at all
+					cl.Missing(tok)
+					cl.Boom(tok)
+					cl.NotifyAbsent(cctx, tok)
 				case 5:
 					s, err := cl.Echo(cctx, tok, sizes[(k+g)%len(sizes)])
 					if err == nil && !strings.HasPrefix(s, fmt.Sprintf("%d:", tok)) {
